@@ -844,6 +844,15 @@ class ExtensionsProperty(DictionaryProperty):
                     _validate_id(
                         key, self.spec_version, 'extension-definition--',
                     )
+                    # What is in it is unknown, but it is an extension: a
+                    # dictionary which is not empty.
+                    if not isinstance(
+                        subvalue, collections.abc.Mapping,
+                    ) or not subvalue:
+                        raise ValueError(
+                            "extension '{}' must be a non-empty "
+                            "dictionary".format(key),
+                        )
                 elif allow_custom:
                     has_custom = True
                 else:
